@@ -324,14 +324,14 @@ pub fn run(r: &mut Report, ctx: &Ctx) {
     if ctx.want("piece-thresholds") {
         // a fast path keyed on "this piece is at least 2^k bytes" needs a piece at that threshold, in every tail fill level
         let kmax: u32 = if quick { 20 } else { 24 };
-        let prefills: [usize; 7] = [0, 1, 2, 3, 4, 5, 67];
+        let prefills: [usize; 9] = [0, 1, 2, 3, 4, 5, 6, 7, 67]; // also every address alignment mod 8 of the large piece
         let deltas: [i64; 5] = [-1, 0, 1, 4, 5];
         let ks: Vec<u32> = (5..=kmax).collect();
         let per_variant = (2 * prefills.len() * deltas.len() * ks.len()) as u64;
         r.section(
             "piece-thresholds",
             "one large update at every power-of-two threshold: pre-fill of p bytes (every tail fill level), then ONE piece of 2^k + d bytes, then 3 more bytes or nothing (so the large call is also the last one), on a fresh real generator vs the byte-at-a-time reference fed the same bytes: processed_len and all 32 finalizations; distinct by enumeration; non-trivial = all",
-            &format!("k in 5..={kmax}, d in {{-1,0,1,4,5}}, p in {{0,1,2,3,4,5,67}}, 5 variants, stream S0 (S3 for d = 0)"),
+            &format!("k in 5..={kmax}, d in {{-1,0,1,4,5}}, p in {{0..7,67}}, 5 variants, stream S0 (S3 for d = 0)"),
             true,
             |s| {
                 let ks = &ks;
@@ -340,8 +340,8 @@ pub fn run(r: &mut Report, ctx: &Ctx) {
                     let v = (idx % 5) as usize;
                     let (i, with_suffix) = (idx / 10, (idx / 5) % 2 == 1);
                     let d = deltas[(i % 5) as usize];
-                    let p = prefills[((i / 5) % 7) as usize];
-                    let k = ks[ks.len() - 1 - (i / 35) as usize];
+                    let p = prefills[((i / 5) % 9) as usize];
+                    let k = ks[ks.len() - 1 - (i / 45) as usize];
                     let piece = ((1i64 << k) + d) as usize;
                     let st = if d == 0 { Stream::A40e } else { Stream::Mixed };
                     let pieces_all = [p, piece, 3];
